@@ -96,9 +96,17 @@ def main():
         jobs = int(sys.argv[sys.argv.index("--jobs") + 1])
     cs = cases(prop)
     res = []
-    with concurrent.futures.ThreadPoolExecutor(max_workers=jobs) as ex:
-        for r in ex.map(lambda c: run_case(prop, c), cs):
-            res.append(r)
+    # every scratch copy lives at a fresh path and therefore adds its own entries to the Go build cache
+    # (about 14 MB per variant): a private cache, removed at the end, keeps the disk bounded
+    cache = tempfile.mkdtemp(prefix="kxcache.")
+    ENV["GOCACHE"] = cache
+    try:
+        with concurrent.futures.ThreadPoolExecutor(max_workers=jobs) as ex:
+            for r in ex.map(lambda c: run_case(prop, c), cs):
+                res.append(r)
+    finally:
+        subprocess.run(["chmod", "-R", "u+w", cache], capture_output=True)
+        shutil.rmtree(cache, ignore_errors=True)
     summ = {
         "variants": len(cs),
         "breaking_applied": sum(1 for (n, s, _), c in zip(res, cs) if c[3] == 1 and s != "skipped"),
